@@ -16,7 +16,7 @@ def wrappers(ctx, ld):
     run, repo = ctx.run, ctx.repo
     run.rule('WRAP', 'WRAPPERS: for every (descriptor, iterator) pair exactly one stream is yielded, after the upstream streams; the '
                      'missing-values, strip and limit wrappers are applied exactly when their option is set, the caster always')
-    pr = ld.methods['process_resources']
+    pr = ctx.N(ld.methods['process_resources'], keep=('missing_values_extractor', 'caster', 'stripper', 'limiter'))
     loops = [n for n in own_nodes(pr.node) if isinstance(n, ast.For)]
     if len(loops) != 1:
         raise AnalysisError('load.process_resources: pair loop not found')
@@ -27,24 +27,34 @@ def wrappers(ctx, ld):
               'descriptors and iterators of the loaded resources are not walked in step')
     d, it = [t.id for t in lp.target.elts] if isinstance(lp.target, ast.Tuple) else (None, None)
     opts = {'self.extract_missing_values': 'missing_values_extractor', 'self.strip': 'stripper', 'self.limit_rows': 'limiter'}
+    stages = set(opts.values()) | {'caster'}
+    from sa.pathvals import PathValues, subst
     n = 0
     for p in Enumerator(where=pr.qualname).body_paths(lp):
         n += 1
+        pv = PathValues(p)
         flags = {}
-        for t, pol in p.guards():
+        for t, pol in pv.guards:
             if pseudo(t) in opts:
                 flags[pseudo(t)] = pol
-        nodes = list(path_nodes(p))
-        applied = [c.func.attr for c in nodes if isinstance(c, ast.Call) and isinstance(c.func, ast.Attribute)
-                   and isinstance(c._parent, ast.Assign) and pseudo(c._parent.targets[0]) == it and pseudo(c.func.value) == 'self']
+        ys = [it_.node.value for it_ in p.items if it_.kind == 'stmt' and isinstance(it_.node, ast.Expr)
+              and isinstance(it_.node.value, ast.Yield)]
+        # what is yielded, with the values known along this path: a nest  limiter(stripper(caster(d, extractor(it))))
+        applied = []
+        ok = len(ys) == 1 and p.term == FALL
+        if ok:
+            v = subst(ys[0].value, pv.env)
+            while isinstance(v, ast.Call) and isinstance(v.func, ast.Attribute) and pseudo(v.func.value) == 'self' and v.func.attr in stages:
+                applied.append(v.func.attr)
+                if v.func.attr == 'caster':
+                    ok = ok and len(v.args) == 2 and pseudo(v.args[0]) == d
+                else:
+                    ok = ok and len(v.args) == 1
+                v = v.args[-1] if v.args else None
+            ok = ok and v is not None and pseudo(v) == it      # every stage wraps the previous one; innermost is the source
+            applied.reverse()                                   # innermost first = order of application
         want = [w for o, w in opts.items() if flags.get(o)]
-        ys = [y for y in nodes if isinstance(y, ast.Yield)]
-        ok = set(flags) == set(opts) and sorted(a for a in applied if a != 'caster') == sorted(want) and \
-            applied.count('caster') == 1 and len(ys) == 1 and pseudo(ys[0].value) == it and p.term == FALL
-        # each wrapper is applied to the current iterator (chained)
-        for c in nodes:
-            if isinstance(c, ast.Call) and isinstance(c.func, ast.Attribute) and c.func.attr in list(opts.values()) + ['caster']:
-                ok = ok and pseudo(c.args[-1]) == it
+        ok = ok and set(flags) == set(opts) and sorted(a for a in applied if a != 'caster') == sorted(want) and applied.count('caster') == 1
         run.check(ok, 'WRAP', where(repo, lp), pr.qualname, ', '.join('%s=%s' % (k.split('.')[1], v) for k, v in sorted(flags.items())),
                   'wrappers applied %s but options say %s' % (applied, want), path=p.describe())
         # order of the stages on this path: missing-value extraction -> cast -> strip -> limit.  The limiter counts what load
@@ -58,12 +68,6 @@ def wrappers(ctx, ld):
                   'the row stages of load are not applied in the order extract-missing, cast, strip, limit: limit_rows no longer '
                   'counts the rows that are yielded (rows dropped by the cast policy use up the limit), or markers reach the caster')
     run.floor('WRAP', n, 2, 'option valuations')
-    # order: missing values are extracted before casting (they would fail the cast), stripping after
-    order = [c.func.attr for c in ast.walk(lp) if isinstance(c, ast.Call) and isinstance(c.func, ast.Attribute)
-             and c.func.attr in list(opts.values()) + ['caster']]
-    srt = sorted(order, key=lambda a: [x.lineno for x in ast.walk(lp) if isinstance(x, ast.Call) and isinstance(x.func, ast.Attribute) and x.func.attr == a][0])
-    run.check(srt.index('missing_values_extractor') < srt.index('caster'), 'WRAP', where(repo, lp), pr.qualname,
-              'missing values extracted before casting', 'missing-value markers reach the caster')
 
 
 def row_wrappers(ctx, ld):
